@@ -186,13 +186,10 @@ pub(crate) fn replay_wal(
 						match current_memtable.add(&batch) {
 							Ok(()) => {}
 							Err(Error::ArenaFull) => {
-								// Edge case: single segment exceeds memtable capacity
-								if current_memtable.is_empty() {
-									return Err(Error::Other(format!(
-										"Batch too large for memtable (batch size exceeds arena_size={})",
-										arena_size
-									)));
-								}
+								// The segment - or a single batch of it, also its first
+								// one: it was committed under the memtable size of its
+								// session, which need not be this session's - exceeds
+								// the memtable capacity.
 								// Do NOT split the segment over several memtables: the
 								// parts would all carry this segment's number, and
 								// flushing the first part would mark the whole segment
